@@ -180,6 +180,18 @@ def string_dispatch_rule(ctx, w, rule):
                           f"msgtype() and serialization return, or the payload is parsed as another message type")
     else:
         ctx.missing(rule, f"{rule}:MessageType", "MessageType::new / Deserialize / msgtype not found")
+    # ---- AuthData (ruma-client-api; present in build configuration B only, i.e. on the thorough tier)
+    AD = "ruma_client_api::uiaa::AuthData"
+    fnew = [k for k in w.fn_index if k == AD + "::new"]
+    fde = [k for k in w.fn_index if k == f"<{AD} as serde_core::de::Deserialize<'de>>::deserialize"]
+    if fnew and fde:
+        tn, odd1 = _literal_table(w, w.fn(fnew[0]), [D.sym("auth_type"), D.sym("session"), D.sym("data")])
+        td, odd2 = _literal_table(w, w.fn(fde[0]), [D.sym("de")])
+        ctx.floor("arms of AuthData::new", len(tn), 7)
+        diff = {l: (tn.get(l), td.get(l)) for l in sorted(set(tn) | set(td)) if tn.get(l) != td.get(l)}
+        ctx.check(not diff and not odd1 and not odd2, rule, f"{rule}:AuthData", w.where(w.fn(fnew[0])),
+                  bad_msg=f"AuthData::new and AuthData's Deserialize disagree on (type string: new, deserialize) {diff}: the specified spelling is kept as a custom "
+                          f"value by one entry point and parsed into the dedicated variant by the other")
 
 
 def custom_msgtype_rule(ctx, w):
